@@ -182,6 +182,121 @@ def container_probe(R, pid, name, da, op, rng, pixelwise, case=None):
     return True
 
 
+# ---- laziness --------------------------------------------------------------------------------------------------------
+def _lazy_vars(res):
+    import xarray as xr
+
+    if isinstance(res, xr.Dataset):
+        return [(k, res[k]) for k in sorted(res.data_vars)]
+    if isinstance(res, xr.DataArray):
+        return [("", res)]
+    if isinstance(res, list):
+        out = []
+        for i, r in enumerate(res):
+            out.extend((f"{i}:{k}", v) for k, v in _lazy_vars(r))
+        return out
+    return []
+
+
+def _other_cube(da, rng):
+    """Same shape, dtype, coordinates and attributes, other content."""
+    v = np.array(da.values, copy=True)
+    nd = da.attrs.get("nodata", ND)
+    if v.dtype.kind == "u":
+        v = (1 - v).astype(v.dtype) if v.max() <= 1 else v[::-1].copy()
+    else:
+        keep = v == nd
+        v = np.where(keep, v, (7000 - v).astype(v.dtype) if v.dtype.kind in "iu" else (7000.5 - v).astype(v.dtype))
+    v = np.ascontiguousarray(np.flip(v, axis=da.dims.index("time")))
+    return _rebuild(da, v)
+
+
+def lazy_probe(R, pid, name, da, ops, opname, rng, pixelwise, case=None):
+    """The same operation on a dask-backed cube: every chunking of the pixel dimensions, the whole result or only a slice of
+    it, persisted first, two results in one graph, a chunked time axis (same result or a refusal)."""
+    import dask
+
+    op = ops[opname]
+    ref = outcome(op, fresh(da))
+    if ref[0] != "ok":
+        R.count("present_reference_raises")
+        return True
+    py, px = _pixdims(da)
+    ny, nx = da.sizes[py], da.sizes[px]
+    chunkings = [("one pixel per chunk", {py: 1, px: 1}), ("ragged chunks", {py: (1, ny - 1) if ny > 1 else -1, px: (nx - 1, 1) if nx > 1 else -1}), ("a single chunk", {py: -1, px: -1})]
+    scheds = ["synchronous", "threads"]
+    for i, (label, ck) in enumerate(chunkings):
+        d = fresh(da).chunk(dict(ck, time=-1))
+        sched = scheds[i % 2]
+
+        def run(d=d, sched=sched):
+            lazy = op(d)
+            declared = [(k, v.dtype) for k, v in _lazy_vars(lazy)]
+            with dask.config.set(scheduler=sched):
+                (computed,) = dask.compute(lazy)
+            return computed, declared
+        got = outcome(lambda _d: run(), d)
+        R.count("present_lazy_probes")
+        R.count(f"present_lazy:{label}")
+        if got[0] == "ok":
+            computed, declared = got[1]
+            got = ("ok", computed)
+            for (k, dt), (k2, v) in zip(declared, _lazy_vars(computed)):
+                if dt != v.dtype:
+                    R.violation(f"{pid}:lazy-dtype", f"{name} on a dask-backed cube ({label}): variable '{k or 'result'}' is declared {dt} and computes to {v.dtype}", dict(case or {}, op=name, chunking=label))
+                    return False
+        if not same(got, ref):
+            R.violation(f"{pid}:lazy", f"{name} on a dask-backed cube ({label}, {sched} scheduler): {describe(got)}; in memory {describe(ref)}", dict(case or {}, op=name, chunking=label))
+            return False
+    d = fresh(da).chunk({py: 1, px: -1, "time": -1})
+    if pixelwise:
+        j = int(rng.integers(0, ny))
+        got = outcome(lambda _d: dask.compute(_isel_result(op(_d), **{py: [j]}))[0], d)
+        R.count("present_lazy_slice_probes")
+        if not same(got, ("ok", _isel_result(ref[1], **{py: [j]}))):
+            R.violation(f"{pid}:lazy-slice", f"{name}: computing only row {j} of the lazy result gives {describe(got)}; that row of the in-memory result {describe(('ok', _isel_result(ref[1], **{py: [j]})))}", dict(case or {}, op=name))
+            return False
+    got = outcome(lambda _d: dask.compute(op(_d.persist()))[0], d)
+    R.count("present_lazy_persist_probes")
+    if not same(got, ref):
+        R.violation(f"{pid}:lazy", f"{name} on a persisted dask-backed cube: {describe(got)}; in memory {describe(ref)}", dict(case or {}, op=name, chunking="persisted"))
+        return False
+    # two lazy results in one graph: another cube of the same shape and, when the table has one, another parameterisation
+    names = list(ops)
+    other = names[(names.index(opname) + 1) % len(names)]
+    db = _other_cube(da, rng)
+    for oname, dd in ((opname, db), (other, fresh(da)), (other, db)):
+        refb = outcome(ops[oname], fresh(dd))
+        if refb[0] != "ok":
+            continue
+
+        def joint(_d, oname=oname, dd=dd):
+            la = op(fresh(da).chunk({py: 1, px: -1, "time": -1}))
+            lb = ops[oname](fresh(dd).chunk({py: 1, px: -1, "time": -1}))
+            return dask.compute(la, lb)
+        got = outcome(joint, d)
+        R.count("present_lazy_joint_graphs")
+        if got[0] != "ok":
+            R.violation(f"{pid}:lazy-joint", f"{name} and {oname} computed in one graph: raises {got[1]}", dict(case or {}, op=name, other=oname))
+            return False
+        ga, gb = got[1]
+        if not same(("ok", ga), ref) or not same(("ok", gb), refb):
+            which = name if not same(("ok", ga), ref) else f"{oname} (second result)"
+            R.violation(f"{pid}:lazy-joint", f"{name} and {oname}{' on another cube of the same shape' if dd is db else ''} computed by one dask.compute: {which} differs from the result computed alone: "
+                        f"{describe(('ok', ga))} / {describe(('ok', gb))}; alone {describe(ref)} / {describe(refb)}", dict(case or {}, op=name, other=oname))
+            return False
+    # a chunked time axis is honoured or refused
+    nt = da.sizes["time"]
+    got = outcome(lambda _d: dask.compute(op(_d))[0], fresh(da).chunk({"time": max(1, nt // 3), py: -1, px: -1}))
+    R.count("present_lazy_time_chunked_probes")
+    if got[0] == "raise":
+        R.count(f"present_lazy_time_chunked_refused:{got[1]}")
+    elif not same(got, ref):
+        R.violation(f"{pid}:lazy-time-chunks", f"{name} on a cube chunked along time neither refuses nor gives the in-memory result: {describe(got)}; in memory {describe(ref)}", dict(case or {}, op=name))
+        return False
+    return True
+
+
 # ---- parameter spellings -------------------------------------------------------------------------------------------
 def spellings(pid, rng, nt):
     """{op name: [(label, fn, strict)]}: the same call with its parameter values spelled differently."""
@@ -454,9 +569,11 @@ def shard(spec, R, pid):
         case = {"cube": np.array(da.values, copy=True), "dims": list(order), "dtype": dtype, "attrs": {k: float(v) for k, v in da.attrs.items()}}
         R.evaluation()
         R.case(True, "present", pid, name, dtype, order, it)
-        mode = H.pick(it, 7, 3)
+        mode = H.pick(it, 7, 4)
         full = f"{name} ({dtype}, dims {order})"
-        if mode == 0:
+        if mode == 3:
+            lazy_probe(R, pid, full, da, ops, name, rng, pid in PIXELWISE, case)
+        elif mode == 0:
             container_probe(R, pid, full, da, ops[name], rng, pid in PIXELWISE, case)
         elif mode == 1:
             alts = spellings(pid, rng, nt).get(name)
